@@ -74,6 +74,11 @@ def run(ctx):
     c05._freshness(ctx, rule='C02.D6')
     from . import c16
     c16.mapping_overrides(ctx, ctx.model, rule='C02.D6')
+    # the Remove spelling and the 3.0-only gates are decided through Version.nearest on every value
+    from . import c18
+    c18.nearest_pure(ctx, 'C02.D4')
+    from . import c07
+    c07.writer_memo(ctx, 'C02.D7', 'jsondumper')
     _assembly(ctx)
     J.dumps_call(ctx, 'C02.D6')
     # a list of grids is dumped grid for grid (clauses shared with C06.D1)
